@@ -60,8 +60,13 @@ async def run(
     await asyncio.gather(*setup_done_events)
 
     # Start simulator processes
+    rt_start = perf_counter()
     processes: List[asyncio.Task[None]] = []
     for sim in world.sims.values():
+        # The process of another simulator may advance this simulator's
+        # progress (and read its rt_start) before its own process has
+        # started and set the actual value.
+        sim.rt_start = rt_start
         process = world.loop.create_task(
             sim_process(world, sim, until, rt_factor, rt_strict, lazy_stepping),
             name=f"Runner for {sim.sid}"
